@@ -570,6 +570,8 @@ def run(ctx, audit):
     import genjax.adev as A
     site_inside_cond_branch(G, A, ctx)
     site_inside_call(G, A, ctx)
+    import interp_tie
+    interp_tie.run_adev(ctx, 24 if ctx.thorough else 9)
     P = programs(G, A)
     thetas = [0.25, 0.5, 0.625] if not ctx.thorough else [0.125, 0.25, 0.375, 0.5, 0.625, 0.75, 0.875]
     for name, spec in P.items():
